@@ -143,6 +143,9 @@ def run(ctx):
                     {"bfile": "file", "indices": "indices_sorted", "box_ids": "ids_sorted",
                      "nfields": "nfields", "lv": "lv"})
     tl.check_consumers(ctx, P)
+    # constructor / error discipline (every option combination builds a full reader; a rejected good file is a
+    # violation of this property just as an accepted bad one is of C04)
+    tl.check_error_discipline(ctx, P)
     tl.headers_worker(ctx, P)
     tl.shape_worker(ctx, P)
     hfab.check_builder(ctx, P)
